@@ -192,6 +192,42 @@ func genNQuery(r *Rng, depth int, only string) nq {
 		}
 		return nq{bleve.NewConjunctionQuery(qs...), fmt.Sprintf("C %d%s", n, sb.String()), false, false, false, false}
 	}
+	if only == "*" && r.Chance(18) {
+		// hot shape: a cross-level conjunction that is itself a clause of a conjunction whose other clauses
+		// address the remaining levels: the outer one Advances the inner nested conjunction over whole groups
+		levels := []string{"", "emps", "offs"}
+		r2 := r.Fork()
+		for i := len(levels) - 1; i > 0; i-- {
+			j := r2.Intn(i + 1)
+			levels[i], levels[j] = levels[j], levels[i]
+		}
+		leaf := func(lv string) nq {
+			if lv == "" {
+				return genNLeafTop(r)
+			}
+			return genNLeaf(r, lv)
+		}
+		a, b := leaf(levels[0]), leaf(levels[1])
+		inner := nq{q: bleve.NewConjunctionQuery(a.q, b.q), tok: fmt.Sprintf("C 2 %s %s", a.tok, b.tok)}
+		if r.Chance(30) { // a third inner clause, on one of the two levels again
+			c := leaf(levels[r.Intn(2)])
+			inner = nq{q: bleve.NewConjunctionQuery(a.q, b.q, c.q), tok: fmt.Sprintf("C 3 %s %s %s", a.tok, b.tok, c.tok)}
+		}
+		outer := []nq{inner, leaf(levels[2])}
+		if r.Chance(30) {
+			outer = append(outer, leaf(levels[r.Intn(3)]))
+		}
+		if r.Bool() {
+			outer[0], outer[1] = outer[1], outer[0]
+		}
+		qs := make([]query.Query, len(outer))
+		var sb strings.Builder
+		for i, k := range outer {
+			qs[i] = k.q
+			sb.WriteString(" " + k.tok)
+		}
+		return nq{bleve.NewConjunctionQuery(qs...), fmt.Sprintf("C %d%s", len(outer), sb.String()), false, false, false, false}
+	}
 	switch r.Intn(4) {
 	case 0, 1:
 		qs, t, mn, ms := kids(2, 3, sub)
@@ -275,13 +311,17 @@ func runC20(t *Trace, r *Rng, tier string, _ []string) {
 			idx, err := bleve.NewUsing("", c20Mapping(nested), scorch.Name, scorch.Name, nil)
 			must(err)
 			nDocs := r.Range(4, 12)
+			oneSegment := ci%3 == 1 // many parents in one segment: cursors can lag by whole groups
+			if oneSegment {
+				nDocs = r.Range(10, 24)
+			}
 			live := map[string]nDoc{}
 			batch := idx.NewBatch()
 			for i := 0; i < nDocs; i++ {
 				d := genNDoc(r, i)
 				live[d.id] = d
 				must(batch.Index(d.id, d.asMap()))
-				if r.Chance(30) {
+				if !oneSegment && r.Chance(30) {
 					must(idx.Batch(batch))
 					batch = idx.NewBatch()
 				}
